@@ -35,6 +35,7 @@ type c10Spec struct {
 	Coll     string `json:"coll,omitempty"`
 	UserRole bool   `json:"user_role,omitempty"`
 	Mapping  bool   `json:"mapping,omitempty"`
+	NoAuto   bool   `json:"no_auto,omitempty"` // created with auto start disabled: after a restart the task stays paused
 }
 
 var c10Specs = []c10Spec{
@@ -51,10 +52,12 @@ var c10Specs = []c10Spec{
 	{Name: "db1/*+role", DB: "db1", Coll: "*", UserRole: true},
 	{Name: "b+map", Legacy: "b", Mapping: true},
 	{Name: "db1/*+map", DB: "db1", Coll: "*", Mapping: true},
+	{Name: "a+noauto", Legacy: "a", NoAuto: true},
+	{Name: "db1/*+noauto", DB: "db1", Coll: "*", NoAuto: true},
 }
 
 type c10Op struct {
-	Kind  string `json:"k"` // create | delete | restart
+	Kind  string `json:"k"` // create | delete | restart | pause
 	Spec  int    `json:"s,omitempty"`
 	Task  int    `json:"t,omitempty"`  // delete: index of the task id (creation order)
 	Fault int    `json:"f,omitempty"`  // create: fail the n-th store call (1-based), 0 = none
@@ -69,6 +72,8 @@ func (o c10Op) String() string {
 		return fmt.Sprintf("create(%s)", c10Specs[o.Spec].Name)
 	case "delete":
 		return fmt.Sprintf("delete(t%d)", o.Task)
+	case "pause":
+		return fmt.Sprintf("pause(t%d)", o.Task)
 	}
 	return "restart"
 }
@@ -83,6 +88,7 @@ func c10Req(sp c10Spec, id string) *request.CreateRequest {
 		r.DBCollections = map[string][]model.CollectionInfo{sp.DB: {{Name: sp.Coll}}}
 	}
 	r.ExtraInfo.EnableUserRole = sp.UserRole
+	r.DisableAutoStart = sp.NoAuto
 	if sp.Mapping {
 		db := sp.DB
 		if sp.Legacy != "" {
@@ -187,6 +193,18 @@ func c10Exec(hist []c10Op) *c10Result {
 				}
 				delete(accepted, ids[op.Task])
 			}
+		case "pause":
+			// a paused task keeps its collections: pausing changes nothing in the bookkeeping (whether the call is
+			// accepted - running task - or refused - unknown / already paused - is C11's business)
+			tid := fmt.Sprintf("t%d", op.Task)
+			if op.Task < len(ids) {
+				tid = ids[op.Task]
+			}
+			_ = env.Pause(tid)
+			if b := c10Sets(env); !strings.HasPrefix(before, b) {
+				res.viol = fmt.Sprintf("pause-changed-bookkeeping: step %d %v\n--- before\n%s\n--- after\n%s", step, op, before, b)
+				return res
+			}
 		case "restart":
 			env.Restart()
 		}
@@ -216,7 +234,7 @@ func c10TaskKey(env *vEnv) string {
 	infos, _ := env.st.ti.Get(context.Background(), &meta.TaskInfo{}, nil)
 	var ks []string
 	for _, i := range infos {
-		ks = append(ks, fmt.Sprintf("%s:%v:%v:%v:%v", i.TaskID, i.CollectionInfos, i.DBCollections, i.ExcludeCollections, i.ExtraInfo))
+		ks = append(ks, fmt.Sprintf("%s:%v:%v:%v:%v:%v:%v", i.TaskID, i.CollectionInfos, i.DBCollections, i.ExcludeCollections, i.ExtraInfo, i.State, i.DisableAutoStart))
 	}
 	sort.Strings(ks)
 	return strings.Join(ks, ";")
@@ -356,6 +374,9 @@ func c10Ops(faults bool) []c10Op {
 		ops = append(ops, c10Op{Kind: "delete", Task: t})
 	}
 	ops = append(ops, c10Op{Kind: "restart"})
+	for t := 0; t < 2; t++ {
+		ops = append(ops, c10Op{Kind: "pause", Task: t})
+	}
 	if faults {
 		for _, sp := range []int{0, 4, 7} {
 			for f := 1; f <= 6; f++ {
@@ -393,7 +414,7 @@ func TestVerifC10Tasks(t *testing.T) {
 		depth = 6
 	}
 	res.Bounds["depth"] = depth
-	res.Rule = fmt.Sprintf("BFS over histories of {create(spec) for %d specification shapes (legacy a|b|*, db in {default, db1, *} x collection in {a, *}, with user-role flag, with name mapping), create with the n-th store call failing (n=1..6), delete(task i), restart} on one target with at most 3 tasks; each history replayed on a fresh real MetaCDC over the real etcd stores on fakeetcd; after every operation: accepted = persisted = in-memory task set, for every (db, collection) in {default, db1, db2} x {a, b, c} at most one task selects it, each task selects its specification minus its exclusions, data path and DDL path agree, a rejected request leaves bookkeeping and store byte-identical, live bookkeeping (as sets) equals a fresh reload of a copy of the store; states deduplicated on bookkeeping + persisted tasks; non-trivial = states reached through a rejected request or containing exclusions", len(c10Specs))
+	res.Rule = fmt.Sprintf("BFS over histories of {create(spec) for %d specification shapes (legacy a|b|*, db in {default, db1, *} x collection in {a, *}, with user-role flag, with name mapping, with auto start disabled), create with the n-th store call failing (n=1..6), delete(task i), pause(task i), restart} on one target with at most 3 tasks; each history replayed on a fresh real MetaCDC over the real etcd stores on fakeetcd; after every operation: accepted = persisted = in-memory task set, for every (db, collection) in {default, db1, db2} x {a, b, c} at most one task selects it, each task selects its specification minus its exclusions, data path and DDL path agree, a rejected request leaves bookkeeping and store byte-identical, live bookkeeping (as sets) equals a fresh reload of a copy of the store; states deduplicated on bookkeeping + persisted tasks; non-trivial = states reached through a rejected request or containing exclusions", len(c10Specs))
 	ops := c10Ops(true)
 	deadline := time.Now().Add(ev.Budget(150 * time.Second))
 	seen := map[string]bool{c10Exec(nil).key: true}
